@@ -34,18 +34,76 @@ def exhaustive():
     return hs
 
 
+def fault_during_race():
+    """A release write that fails while the application sends: on the real event loop
+    (gate transport of C09) the in-flight write of parked command number `fail_at` is
+    failed after a send for the same key / a later key / an already released key ran
+    while write number `when` was suspended.  The failure must reach the listener,
+    and after one more (fault-free) wake every key's last sent value is its last
+    written value and nothing was written twice."""
+    from common import ex
+    from props.c09 import KEYS, Race
+    from props.c09 import oracle as race_oracle
+
+    fs, n = [], 0
+    for version in ("2.0", "2.1", "2.2"):
+        for k in (1, 2, 3):
+            for fail_at in range(k):
+                for when in range(fail_at + 1):
+                    for target in range(3):
+                        r = Race(version)
+                        acts = []
+                        for i in range(k):
+                            r.send(KEYS[i], 100 + i)
+                            acts.append(("send", KEYS[i], 100 + i))
+                        r.wake(1)
+                        acts.append(("wake", 1))
+                        for w in range(k):
+                            if w == when:
+                                r.send(KEYS[target], 200)
+                                acts.append(("send", KEYS[target], 200))
+                            if w == fail_at:
+                                r.complete(False)
+                                acts.append(("complete", False))
+                                break
+                            r.complete(True)
+                            acts.append(("complete", True))
+                        reported = any(isinstance(e, ex.TransportError) for e in r.listener_errors)
+                        r.quiesce([1, 2])
+                        n += 1
+                        case = {"version": version, "actions": acts, "race": True}
+                        if not reported:
+                            fs.append({"kind": "oracle", "sig": "C08:fault-not-reported", "desc": f"protocol {version}, {acts}: the failing release write was not reported to the caller of listen (errors {r.listener_errors})", "case": case})
+                        for sig, desc in race_oracle(r, acts)[:2]:
+                            sig8 = {"C09:lost-update": "C08:lost", "C09:repeated": "C08:repeated", "C09:left-over": "C08:lost"}.get(sig, sig.replace("C09", "C08"))
+                            fs.append({"kind": "oracle", "sig": sig8, "desc": f"protocol {version}, {acts} then one fault-free wake per node: {desc}", "case": case})
+                        r.close()
+    seen = {}
+    for f in fs:
+        seen.setdefault(f["sig"], f)
+    return list(seen.values()), n
+
+
 def run(ctx, model_available=True):
     rng = rng_for(ctx.seed, "C08gen")
     ex_h = exhaustive()
     hs = ex_h + [gen_sleep_history(rng, True) for _ in range(ctx.budget(500, 10000))]
     res = run_property(ctx, "C08", histories=hs, n_quick=0, n_thorough=0, oracle=oracle_c08,
                        model_available=model_available,
-                       rule="exhaustive: every subset of failing write positions over two faulty wakes followed by a clean wake, 1-3 parked commands, protocols 2.0/2.1/2.2; plus random sleep-buffer histories with write faults ending in one fault-free wake per node",
+                       rule="failing release write with a send running while it is suspended (gate transport, 3 versions x 1-3 parked x fail position x send position x 3 keys); exhaustive: every subset of failing write positions over two faulty wakes followed by a clean wake, 1-3 parked commands, protocols 2.0/2.1/2.2; plus random sleep-buffer histories with write faults ending in one fault-free wake per node",
                        assumptions=["the scripted transport raises TransportFailedError at the chosen write attempts"])
     res["exhaustive"] = True
+    rf, rn = fault_during_race()
+    res["failures"] = rf + res["failures"]
+    res["evaluations"] += rn
+    res["distribution"]["failing_write_with_concurrent_send"] = rn
     res["distribution"]["exhaustive_fault_subsets"] = len(ex_h)
     return res
 
 
 def replay(ctx, rp):
+    if (rp.get("case") or {}).get("race"):
+        from props import c09
+
+        return c09.replay(ctx, rp)
     return replay_ops(ctx, rp, oracle_c08)
